@@ -106,3 +106,123 @@ fn c13_cast_relation_t() {
     std::mem::forget(b);
     std::mem::forget(sm);
 }
+
+// ---------------------------------------------------------------------------
+// record types: a class hierarchy of 3 records with symbolic (acyclic) parent edges, built
+// directly in the arena (no hash-map operation is involved in is_subclass_of)
+
+use crate::file_system::{FileId, FileRange};
+use crate::symbol_map::record::{Record, RecordId, RecordKind};
+use id_arena::Arena;
+use syntax::parser::TextRange;
+
+struct Hier {
+    ids: [RecordId; 3],
+    e10: bool, // record 1 has parent 0
+    e20: bool,
+    e21: bool,
+}
+
+fn any_hierarchy() -> (SymbolMap, Hier) {
+    let loc = FileRange::new(FileId(0), TextRange::empty(0.into()));
+    let mut arena: Arena<Record> = Arena::new();
+    let r0 = arena.alloc(Record::new("A".into(), RecordKind::Class, loc));
+    let r1 = arena.alloc(Record::new("B".into(), RecordKind::Class, loc));
+    let r2 = arena.alloc(Record::new("C".into(), RecordKind::Class, loc));
+    let (e10, e20, e21): (bool, bool, bool) = (kani::any(), kani::any(), kani::any());
+    if e10 {
+        arena[r1].add_parent(r0);
+    }
+    // both orders of C's parent list
+    let c_order: bool = kani::any();
+    if c_order {
+        if e20 {
+            arena[r2].add_parent(r0);
+        }
+        if e21 {
+            arena[r2].add_parent(r1);
+        }
+    } else {
+        if e21 {
+            arena[r2].add_parent(r1);
+        }
+        if e20 {
+            arena[r2].add_parent(r0);
+        }
+    }
+    let sm = SymbolMap { record_list: arena, ..Default::default() };
+    (sm, Hier { ids: [r0, r1, r2], e10, e20, e21 })
+}
+
+fn is_sub(h: &Hier, a: usize, b: usize) -> bool {
+    // reference: a == b or b reachable from a through parent edges
+    if a == b {
+        return true;
+    }
+    match (a, b) {
+        (1, 0) => h.e10,
+        (2, 1) => h.e21,
+        (2, 0) => h.e20 || (h.e21 && h.e10),
+        _ => false,
+    }
+}
+
+/// type over {int, string, ?, record i, list<..>} of depth <= depth; returns the type and, for the
+/// reference, a compact description: (list nesting, leaf) with leaf 0..=2 record index, 3 int,
+/// 4 string, 5 uninitialized
+fn any_rec_type(h: &Hier, depth: u32) -> (Type, u32, u8) {
+    let nest: u32 = kani::any();
+    kani::assume(nest <= depth);
+    let leaf: u8 = kani::any();
+    kani::assume(leaf <= 5);
+    let mut t = match leaf {
+        0 | 1 | 2 => Type::Record(h.ids[leaf as usize], "R".into()),
+        3 => Type::Int,
+        4 => Type::String,
+        _ => Type::Uninitialized,
+    };
+    let mut i = 0;
+    while i < 2 {
+        if i < nest {
+            t = Type::List(Box::new(t));
+        }
+        i += 1;
+    }
+    (t, nest, leaf)
+}
+
+fn ref_rec_compatible(h: &Hier, a: (u32, u8), b: (u32, u8)) -> bool {
+    // `?` at any level is a wildcard for whatever is at the same level on the other side
+    let (na, la) = a;
+    let (nb, lb) = b;
+    if la == 5 && na <= nb {
+        return true;
+    }
+    if lb == 5 && nb <= na {
+        return true;
+    }
+    if na != nb {
+        return false;
+    }
+    if la <= 2 && lb <= 2 {
+        return is_sub(h, la as usize, lb as usize);
+    }
+    la == lb
+}
+
+#[kani::proof]
+#[kani::unwind(6)]
+#[kani::stub(std::hash::RandomState::new, fixed_random_state)]
+fn c13_cast_relation_records() {
+    let (sm, h) = any_hierarchy();
+    let (a, na, la) = any_rec_type(&h, 2);
+    let (b, nb, lb) = any_rec_type(&h, 2);
+    let got = a.can_be_casted_to(&sm, &b);
+    let want = ref_rec_compatible(&h, (na, la), (nb, lb));
+    assert!(got == want, "C13: record types are compatible exactly along the class hierarchy (lists covariant)");
+    kani::cover!(got && la == 2 && lb == 0 && !h.e20 && na == 1, "W: list<C> to list<A> through B");
+    kani::cover!(!got && la == 0 && lb == 2 && na == 1 && nb == 1, "W: list<A> is not list<C>");
+    std::mem::forget(a);
+    std::mem::forget(b);
+    std::mem::forget(sm);
+}
